@@ -886,7 +886,24 @@ package ast
 //@   ghost_exit $wK = ite(err == nil, store($wK, $wN, 5), $wK)
 //@   ghost_exit $wN = ite(err == nil, $wN + 1, $wN)
 //@   ghost_exit $wErrN = ite(err != nil, $wErrN + 1, $wErrN)
-// ReadStringFromReader is CHECKED for the safety clauses (C20) and carries the token-level abstraction as trusted clauses.
+// readBytesFromReader (the chunked body reader shared by strings and constant value bytes) and ReadStringFromReader are CHECKED for
+// the safety clauses (C20) and carry the token-level abstraction as trusted clauses (the body is one token).
+// C20: what is allocated before it has been read is bounded by ONE chunk, whatever the length says (the amortised growth of
+// append is a constant factor of what was read: T-ALLOC, not counted); on success everything allocated has been read; the loop
+// ends: the outstanding byte count shrinks
+//@ func readBytesFromReader(reader, length) (data, err)
+//@   serves C12 C20
+//@   requires reader != nil && length >= 0
+//@   modifies global TotalRead, $allocated, $consumed
+//@   trusted_ensures (err == nil) == (old($rPos) < $rEnd)
+//@   ghost_exit $rPos = ite(err == nil, $rPos + 1, $rPos)
+//@   nopanic
+//@   ensures[C12,C20] complete: err == nil ==> len(data) == length
+//@   ensures[C20] allocbounded: $allocated - old($allocated) <= ($consumed - old($consumed)) + 4096
+//@   ensures[C20] paidonsuccess: err == nil ==> $allocated - old($allocated) <= $consumed - old($consumed)
+//@   ensures[C20] monotone: $consumed >= old($consumed) && $allocated >= old($allocated)
+//@   invariant@1 paid: $allocated - old($allocated) <= $consumed - old($consumed) && remaining >= 0 && len(data) + remaining == length && $consumed >= old($consumed) && $allocated >= old($allocated)
+//@   decreases@1 remaining
 //@ func ReadStringFromReader(reader) (s, err)
 //@   serves C20
 //@   requires reader != nil
@@ -896,11 +913,9 @@ package ast
 //@   ghost_exit $rPos = ite(err == nil, $rPos + 1, $rPos)
 //@   ghost_exit $rErrN = ite(err != nil, $rErrN + 1, $rErrN)
 //@   nopanic[C20]
-// C20: what is allocated before it has been read is bounded by ONE chunk, whatever the length prefix says (the amortised growth of
-// append is a constant factor of what was read: T-ALLOC, not counted); the loop ends: the outstanding byte count shrinks
 //@   ensures[C20] allocbounded: $allocated - old($allocated) <= ($consumed - old($consumed)) + 4096 + 16
-//@   invariant@1[C20] paid: $allocated - old($allocated) <= ($consumed - old($consumed)) + 16 && remaining >= 0
-//@   decreases@1 remaining
+//@   ensures[C20] paidonsuccess: err == nil ==> $allocated - old($allocated) <= $consumed - old($consumed)
+//@   ensures[C20] monotone: $consumed >= old($consumed) && $allocated >= old($allocated)
 //@ extern func ReadIntFromReader(r) (i, err)
 //@   nopanic
 //@   ensures (err == nil) == (old($rPos) < $rEnd)
@@ -938,6 +953,9 @@ package ast
 //@   requires meta != nil && reader != nil && $rPos >= 0
 //@   nopanic
 //@   modifies NodeMeta.*, @rstream
+//@   ensures[C20] allocbounded: $allocated - old($allocated) <= ($consumed - old($consumed)) + 12336
+//@   ensures[C20] paidonsuccess: err == nil ==> $allocated - old($allocated) <= $consumed - old($consumed)
+//@   ensures[C20] monotone: $consumed >= old($consumed) && $allocated >= old($allocated)
 //@   ensures[C12] decodes: err == nil && kindsNodeMeta($rK, old($rPos)) ==> $rPos == old($rPos) + 3 && layNodeMetaR($rK, $rS, $rI, $rB, old($rPos), meta)
 //@   ensures[C12] completeloads: kindsNodeMeta($rK, old($rPos)) && old($rPos) + 3 <= $rEnd ==> err == nil
 //@   ensures[C12] truncationfails: err == nil ==> $rPos <= $rEnd && $rPos >= old($rPos)
@@ -961,6 +979,9 @@ package ast
 //@   requires meta != nil && reader != nil && $rPos >= 0
 //@   nopanic
 //@   modifies ArrayMapSelectorMeta.*, @rstream
+//@   ensures[C20] allocbounded: $allocated - old($allocated) <= ($consumed - old($consumed)) + 16448
+//@   ensures[C20] paidonsuccess: err == nil ==> $allocated - old($allocated) <= $consumed - old($consumed)
+//@   ensures[C20] monotone: $consumed >= old($consumed) && $allocated >= old($allocated)
 //@   ensures[C12] decodes: err == nil && kindsArrayMapSelectorMeta($rK, old($rPos)) ==> $rPos == old($rPos) + 4 && layArrayMapSelectorMetaR($rK, $rS, $rI, $rB, old($rPos), meta)
 //@   ensures[C12] completeloads: kindsArrayMapSelectorMeta($rK, old($rPos)) && old($rPos) + 4 <= $rEnd ==> err == nil
 //@   ensures[C12] truncationfails: err == nil ==> $rPos <= $rEnd && $rPos >= old($rPos)
@@ -984,6 +1005,9 @@ package ast
 //@   requires meta != nil && reader != nil && $rPos >= 0
 //@   nopanic
 //@   modifies AssigmentMeta.*, @rstream
+//@   ensures[C20] allocbounded: $allocated - old($allocated) <= ($consumed - old($consumed)) + 16448
+//@   ensures[C20] paidonsuccess: err == nil ==> $allocated - old($allocated) <= $consumed - old($consumed)
+//@   ensures[C20] monotone: $consumed >= old($consumed) && $allocated >= old($allocated)
 //@   ensures[C12] decodes: err == nil && kindsAssigmentMeta($rK, old($rPos)) ==> $rPos == old($rPos) + 10 && layAssigmentMetaR($rK, $rS, $rI, $rB, old($rPos), meta)
 //@   ensures[C12] completeloads: kindsAssigmentMeta($rK, old($rPos)) && old($rPos) + 10 <= $rEnd ==> err == nil
 //@   ensures[C12] truncationfails: err == nil ==> $rPos <= $rEnd && $rPos >= old($rPos)
@@ -1007,6 +1031,9 @@ package ast
 //@   requires meta != nil && reader != nil && $rPos >= 0
 //@   nopanic
 //@   modifies ExpressionMeta.*, @rstream
+//@   ensures[C20] allocbounded: $allocated - old($allocated) <= ($consumed - old($consumed)) + 16448
+//@   ensures[C20] paidonsuccess: err == nil ==> $allocated - old($allocated) <= $consumed - old($consumed)
+//@   ensures[C20] monotone: $consumed >= old($consumed) && $allocated >= old($allocated)
 //@   ensures[C12] decodes: err == nil && kindsExpressionMeta($rK, old($rPos)) ==> $rPos == old($rPos) + 9 && layExpressionMetaR($rK, $rS, $rI, $rB, old($rPos), meta)
 //@   ensures[C12] completeloads: kindsExpressionMeta($rK, old($rPos)) && old($rPos) + 9 <= $rEnd ==> err == nil
 //@   ensures[C12] truncationfails: err == nil ==> $rPos <= $rEnd && $rPos >= old($rPos)
@@ -1030,6 +1057,9 @@ package ast
 //@   requires meta != nil && reader != nil && $rPos >= 0
 //@   nopanic
 //@   modifies ExpressionAtomMeta.*, @rstream
+//@   ensures[C20] allocbounded: $allocated - old($allocated) <= ($consumed - old($consumed)) + 16448
+//@   ensures[C20] paidonsuccess: err == nil ==> $allocated - old($allocated) <= $consumed - old($consumed)
+//@   ensures[C20] monotone: $consumed >= old($consumed) && $allocated >= old($allocated)
 //@   ensures[C12] decodes: err == nil && kindsExpressionAtomMeta($rK, old($rPos)) ==> $rPos == old($rPos) + 10 && layExpressionAtomMetaR($rK, $rS, $rI, $rB, old($rPos), meta)
 //@   ensures[C12] completeloads: kindsExpressionAtomMeta($rK, old($rPos)) && old($rPos) + 10 <= $rEnd ==> err == nil
 //@   ensures[C12] truncationfails: err == nil ==> $rPos <= $rEnd && $rPos >= old($rPos)
@@ -1053,6 +1083,9 @@ package ast
 //@   requires meta != nil && reader != nil && $rPos >= 0
 //@   nopanic
 //@   modifies FunctionCallMeta.*, @rstream
+//@   ensures[C20] allocbounded: $allocated - old($allocated) <= ($consumed - old($consumed)) + 16448
+//@   ensures[C20] paidonsuccess: err == nil ==> $allocated - old($allocated) <= $consumed - old($consumed)
+//@   ensures[C20] monotone: $consumed >= old($consumed) && $allocated >= old($allocated)
 //@   ensures[C12] decodes: err == nil && kindsFunctionCallMeta($rK, old($rPos)) ==> $rPos == old($rPos) + 5 && layFunctionCallMetaR($rK, $rS, $rI, $rB, old($rPos), meta)
 //@   ensures[C12] completeloads: kindsFunctionCallMeta($rK, old($rPos)) && old($rPos) + 5 <= $rEnd ==> err == nil
 //@   ensures[C12] truncationfails: err == nil ==> $rPos <= $rEnd && $rPos >= old($rPos)
@@ -1076,6 +1109,9 @@ package ast
 //@   requires meta != nil && reader != nil && $rPos >= 0
 //@   nopanic
 //@   modifies RuleEntryMeta.*, @rstream
+//@   ensures[C20] allocbounded: $allocated - old($allocated) <= ($consumed - old($consumed)) + 16448
+//@   ensures[C20] paidonsuccess: err == nil ==> $allocated - old($allocated) <= $consumed - old($consumed)
+//@   ensures[C20] monotone: $consumed >= old($consumed) && $allocated >= old($allocated)
 //@   ensures[C12] decodes: err == nil && kindsRuleEntryMeta($rK, old($rPos)) ==> $rPos == old($rPos) + 8 && layRuleEntryMetaR($rK, $rS, $rI, $rB, old($rPos), meta)
 //@   ensures[C12] completeloads: kindsRuleEntryMeta($rK, old($rPos)) && old($rPos) + 8 <= $rEnd ==> err == nil
 //@   ensures[C12] truncationfails: err == nil ==> $rPos <= $rEnd && $rPos >= old($rPos)
@@ -1099,6 +1135,9 @@ package ast
 //@   requires meta != nil && reader != nil && $rPos >= 0
 //@   nopanic
 //@   modifies ThenExpressionMeta.*, @rstream
+//@   ensures[C20] allocbounded: $allocated - old($allocated) <= ($consumed - old($consumed)) + 16448
+//@   ensures[C20] paidonsuccess: err == nil ==> $allocated - old($allocated) <= $consumed - old($consumed)
+//@   ensures[C20] monotone: $consumed >= old($consumed) && $allocated >= old($allocated)
 //@   ensures[C12] decodes: err == nil && kindsThenExpressionMeta($rK, old($rPos)) ==> $rPos == old($rPos) + 5 && layThenExpressionMetaR($rK, $rS, $rI, $rB, old($rPos), meta)
 //@   ensures[C12] completeloads: kindsThenExpressionMeta($rK, old($rPos)) && old($rPos) + 5 <= $rEnd ==> err == nil
 //@   ensures[C12] truncationfails: err == nil ==> $rPos <= $rEnd && $rPos >= old($rPos)
@@ -1122,6 +1161,9 @@ package ast
 //@   requires meta != nil && reader != nil && $rPos >= 0
 //@   nopanic
 //@   modifies ThenScopeMeta.*, @rstream
+//@   ensures[C20] allocbounded: $allocated - old($allocated) <= ($consumed - old($consumed)) + 16448
+//@   ensures[C20] paidonsuccess: err == nil ==> $allocated - old($allocated) <= $consumed - old($consumed)
+//@   ensures[C20] monotone: $consumed >= old($consumed) && $allocated >= old($allocated)
 //@   ensures[C12] decodes: err == nil && kindsThenScopeMeta($rK, old($rPos)) ==> $rPos == old($rPos) + 4 && layThenScopeMetaR($rK, $rS, $rI, $rB, old($rPos), meta)
 //@   ensures[C12] completeloads: kindsThenScopeMeta($rK, old($rPos)) && old($rPos) + 4 <= $rEnd ==> err == nil
 //@   ensures[C12] truncationfails: err == nil ==> $rPos <= $rEnd && $rPos >= old($rPos)
@@ -1145,6 +1187,9 @@ package ast
 //@   requires meta != nil && reader != nil && $rPos >= 0
 //@   nopanic
 //@   modifies VariableMeta.*, @rstream
+//@   ensures[C20] allocbounded: $allocated - old($allocated) <= ($consumed - old($consumed)) + 16448
+//@   ensures[C20] paidonsuccess: err == nil ==> $allocated - old($allocated) <= $consumed - old($consumed)
+//@   ensures[C20] monotone: $consumed >= old($consumed) && $allocated >= old($allocated)
 //@   ensures[C12] decodes: err == nil && kindsVariableMeta($rK, old($rPos)) ==> $rPos == old($rPos) + 6 && layVariableMetaR($rK, $rS, $rI, $rB, old($rPos), meta)
 //@   ensures[C12] completeloads: kindsVariableMeta($rK, old($rPos)) && old($rPos) + 6 <= $rEnd ==> err == nil
 //@   ensures[C12] truncationfails: err == nil ==> $rPos <= $rEnd && $rPos >= old($rPos)
@@ -1168,6 +1213,9 @@ package ast
 //@   requires meta != nil && reader != nil && $rPos >= 0
 //@   nopanic
 //@   modifies WhenScopeMeta.*, @rstream
+//@   ensures[C20] allocbounded: $allocated - old($allocated) <= ($consumed - old($consumed)) + 16448
+//@   ensures[C20] paidonsuccess: err == nil ==> $allocated - old($allocated) <= $consumed - old($consumed)
+//@   ensures[C20] monotone: $consumed >= old($consumed) && $allocated >= old($allocated)
 //@   ensures[C12] decodes: err == nil && kindsWhenScopeMeta($rK, old($rPos)) ==> $rPos == old($rPos) + 4 && layWhenScopeMetaR($rK, $rS, $rI, $rB, old($rPos), meta)
 //@   ensures[C12] completeloads: kindsWhenScopeMeta($rK, old($rPos)) && old($rPos) + 4 <= $rEnd ==> err == nil
 //@   ensures[C12] truncationfails: err == nil ==> $rPos <= $rEnd && $rPos >= old($rPos)
@@ -1194,10 +1242,13 @@ package ast
 //@   requires meta != nil && reader != nil && $rPos >= 0
 //@   nopanic
 //@   modifies ArgumentListMeta.*, @rstream, $allocated
+//@   ensures[C20] allocbounded: $allocated - old($allocated) <= ($consumed - old($consumed)) + 16448
+//@   ensures[C20] paidonsuccess: err == nil ==> $allocated - old($allocated) <= $consumed - old($consumed)
+//@   ensures[C20] monotone: $consumed >= old($consumed) && $allocated >= old($allocated)
 //@   ensures[C12] decodes: err == nil && kindsArgumentListMeta($rK, $rI, old($rPos)) ==> meta.AstID == $rS[old($rPos)] && meta.GrlText == $rS[old($rPos)+1] && meta.Snapshot == $rS[old($rPos)+2] && layIDs($rK, $rS, $rI, old($rPos) + 3, meta.ArgumentASTIDs) && $rPos == old($rPos) + 4 + len(meta.ArgumentASTIDs)
 //@   ensures[C12] completeloads: kindsArgumentListMeta($rK, $rI, old($rPos)) && $rI[old($rPos)+3] >= 0 && old($rPos) + 4 + $rI[old($rPos)+3] <= $rEnd ==> err == nil
 //@   ensures[C12] truncationfails: err == nil ==> $rPos <= $rEnd && $rPos >= old($rPos)
-//@   invariant@1 0 <= index && index <= integer && $rPos == old($rPos) + 4 + index && $rPos <= $rEnd && len(meta.ArgumentASTIDs) == integer
+//@   invariant@1 0 <= index && index <= integer && $rPos == old($rPos) + 4 + index && $rPos <= $rEnd && len(meta.ArgumentASTIDs) == index && $allocated - old($allocated) <= $consumed - old($consumed) && $consumed >= old($consumed) && $allocated >= old($allocated)
 //@   invariant@1 kindsArgumentListMeta($rK, $rI, old($rPos)) ==> integer == $rI[old($rPos)+3] && meta.AstID == $rS[old($rPos)] && meta.GrlText == $rS[old($rPos)+1] && meta.Snapshot == $rS[old($rPos)+2] && (forall k int :: 0 <= k && k < index ==> meta.ArgumentASTIDs[k] == $rS[old($rPos)+4+k])
 //@ lemma[C12] mirror_ArgumentListMeta: forall K array[int]int, S array[int]string, I array[int]int, p int, a []string, b []string :: layIDs(K, S, I, p, a) && layIDs(K, S, I, p, b) ==> len(a) == len(b) && (forall k int :: 0 <= k && k < len(a) ==> a[k] == b[k])
 
@@ -1219,10 +1270,13 @@ package ast
 //@   requires meta != nil && reader != nil && $rPos >= 0
 //@   nopanic
 //@   modifies ThenExpressionListMeta.*, @rstream, $allocated
+//@   ensures[C20] allocbounded: $allocated - old($allocated) <= ($consumed - old($consumed)) + 16448
+//@   ensures[C20] paidonsuccess: err == nil ==> $allocated - old($allocated) <= $consumed - old($consumed)
+//@   ensures[C20] monotone: $consumed >= old($consumed) && $allocated >= old($allocated)
 //@   ensures[C12] decodes: err == nil && kindsThenExpressionListMeta($rK, $rI, old($rPos)) ==> meta.AstID == $rS[old($rPos)] && meta.GrlText == $rS[old($rPos)+1] && meta.Snapshot == $rS[old($rPos)+2] && layIDs($rK, $rS, $rI, old($rPos) + 3, meta.ThenExpressionIDs) && $rPos == old($rPos) + 4 + len(meta.ThenExpressionIDs)
 //@   ensures[C12] completeloads: kindsThenExpressionListMeta($rK, $rI, old($rPos)) && $rI[old($rPos)+3] >= 0 && old($rPos) + 4 + $rI[old($rPos)+3] <= $rEnd ==> err == nil
 //@   ensures[C12] truncationfails: err == nil ==> $rPos <= $rEnd && $rPos >= old($rPos)
-//@   invariant@1 0 <= index && index <= count && $rPos == old($rPos) + 4 + index && $rPos <= $rEnd && len(meta.ThenExpressionIDs) == count
+//@   invariant@1 0 <= index && index <= count && $rPos == old($rPos) + 4 + index && $rPos <= $rEnd && len(meta.ThenExpressionIDs) == index && $allocated - old($allocated) <= $consumed - old($consumed) && $consumed >= old($consumed) && $allocated >= old($allocated)
 //@   invariant@1 kindsThenExpressionListMeta($rK, $rI, old($rPos)) ==> count == $rI[old($rPos)+3] && meta.AstID == $rS[old($rPos)] && meta.GrlText == $rS[old($rPos)+1] && meta.Snapshot == $rS[old($rPos)+2] && (forall k int :: 0 <= k && k < index ==> meta.ThenExpressionIDs[k] == $rS[old($rPos)+4+k])
 //@ lemma[C12] mirror_ThenExpressionListMeta: forall K array[int]int, S array[int]string, I array[int]int, p int, a []string, b []string :: layIDs(K, S, I, p, a) && layIDs(K, S, I, p, b) ==> len(a) == len(b) && (forall k int :: 0 <= k && k < len(a) ==> a[k] == b[k])
 
@@ -1236,6 +1290,11 @@ package ast
 //@ extern func (m Meta) ReadMetaFrom(reader) (err)
 //@   nopanic
 //@   modifies *, @rstream
+// C20 (F28): no record reader allocates what a count or length field says before the data has arrived - CHECKED on each of the 13
+// readers under the same clause names; assumed here for the call through the interface
+//@   ensures[C20] allocbounded: $allocated - old($allocated) <= ($consumed - old($consumed)) + 16448
+//@   ensures[C20] paidonsuccess: err == nil ==> $allocated - old($allocated) <= $consumed - old($consumed)
+//@   ensures[C20] monotone: $consumed >= old($consumed) && $allocated >= old($allocated)
 // (the 13 record readers return the first read error they meet: checked in the form of their decodes / completeloads clauses)
 //@   ensures $rErrN >= old($rErrN) && (err == nil ==> $rErrN == old($rErrN))
 //@   ensures err == nil ==> $rPos <= $rEnd
@@ -1264,6 +1323,17 @@ package ast
 //@   requires cat != nil && reader != nil && $rPos >= 0
 //@   modifies *, @rstream
 //@   ghost_exit $catReadFailed = err != nil
+// C20 (F28): the catalogue reader allocates nothing on behalf of a count field before the counted data has arrived - whatever has
+// been allocated at the head of each of the eight loops has been paid for by bytes read; one failing read may cost one chunk more
+//@   ensures[C20] allocbounded: $allocated - old($allocated) <= ($consumed - old($consumed)) + 16448
+//@   invariant@1[C20] paid: $allocated - old($allocated) <= $consumed - old($consumed) && $consumed >= old($consumed) && $allocated >= old($allocated)
+//@   invariant@2[C20] paid: $allocated - old($allocated) <= $consumed - old($consumed) && $consumed >= old($consumed) && $allocated >= old($allocated)
+//@   invariant@3[C20] paid: $allocated - old($allocated) <= $consumed - old($consumed) && $consumed >= old($consumed) && $allocated >= old($allocated)
+//@   invariant@4[C20] paid: $allocated - old($allocated) <= $consumed - old($consumed) && $consumed >= old($consumed) && $allocated >= old($allocated)
+//@   invariant@5[C20] paid: $allocated - old($allocated) <= $consumed - old($consumed) && $consumed >= old($consumed) && $allocated >= old($allocated)
+//@   invariant@6[C20] paid: $allocated - old($allocated) <= $consumed - old($consumed) && $consumed >= old($consumed) && $allocated >= old($allocated)
+//@   invariant@7[C20] paid: $allocated - old($allocated) <= $consumed - old($consumed) && $consumed >= old($consumed) && $allocated >= old($allocated)
+//@   invariant@8[C20] paid: $allocated - old($allocated) <= $consumed - old($consumed) && $consumed >= old($consumed) && $allocated >= old($allocated)
 //@   invariant@1[C12] nofail: $rErrN == old($rErrN) && $rPos <= $rEnd
 //@   invariant@2[C12] nofail: $rErrN == old($rErrN) && $rPos <= $rEnd
 //@   invariant@3[C12] nofail: $rErrN == old($rErrN) && $rPos <= $rEnd
@@ -1297,10 +1367,14 @@ package ast
 //@ func (meta *ConstantMeta) ReadMetaFrom(reader) (err)
 //@   serves C12 C20
 //@   requires meta != nil && reader != nil && $rPos >= 0
+//@   nopanic
 //@   modifies ConstantMeta.*, @rstream
+//@   ensures[C20] allocbounded: $allocated - old($allocated) <= ($consumed - old($consumed)) + 16448
+//@   ensures[C20] paidonsuccess: err == nil ==> $allocated - old($allocated) <= $consumed - old($consumed)
+//@   ensures[C20] monotone: $consumed >= old($consumed) && $allocated >= old($allocated)
 //@   ensures[C12] decodes: err == nil && kindsConstantMeta($rK, old($rPos)) ==> $rPos == old($rPos) + 7 && meta.AstID == $rS[old($rPos)] && meta.GrlText == $rS[old($rPos)+1] && meta.Snapshot == $rS[old($rPos)+2]
 //@        && meta.ValueType == wrap_s64($rI[old($rPos)+3]) && len(meta.ValueBytes) == $rI[old($rPos)+4] && meta.IsNil == $rB[old($rPos)+6]
-//@   ensures[C12] completeloads: kindsConstantMeta($rK, old($rPos)) && old($rPos) + 7 <= $rEnd && $rI[old($rPos)+4] < 9223372036854775808 ==> err == nil
+//@   ensures[C12] completeloads: kindsConstantMeta($rK, old($rPos)) && old($rPos) + 7 <= $rEnd ==> err == nil
 //@   ensures[C12] truncationfails: err == nil ==> $rPos <= $rEnd && $rPos >= old($rPos)
 
 // F5 (C12, C16): the rule-entry record of the binary format has no field for Deleted, so the only way "a removed rule
@@ -2069,7 +2143,7 @@ package ast
 // what MakeCatalog / ReadCatalogFromReader produce: every record is filed under its own AstID
 //@ macro func catWF(cat *Catalog) bool { return forall k string {cat.Data[k]} :: has(cat.Data, k) ==> isMeta(cat.Data[k]) && metaAstID(cat.Data[k]) == k }
 //@ func (cat *Catalog) BuildKnowledgeBase() (kb, err)
-//@   serves C12
+//@   serves C12 C20
 //@   opt alloc=1
 //@   requires cat != nil
 //@   modifies *
